@@ -884,8 +884,10 @@ def concat_flags_cases(ctx):
         raw = np.concatenate(raws)
         names = enc_list(DOCUMENTED)
         order = 'lsb' if ver == 3 else 'msb'
-        sels = [{'k': 'str', 'v': 'cam'}, {'k': 'str', 'v': 'static,predicted_rfi'},
-                {'k': 'list', 'v': ['ingest_rfi']}, {'k': 'str', 'v': 'data_lost, cal_rfi,cam'}]
+        # (an EMPTY selection after a non-empty one must reach the parts as well)
+        sels = [{'k': 'str', 'v': 'cam'}, {'k': 'str', 'v': ''}, {'k': 'str', 'v': 'static,predicted_rfi'},
+                {'k': 'list', 'v': []}, {'k': 'list', 'v': ['ingest_rfi']}, {'k': 'str', 'v': 'all'},
+                {'k': 'str', 'v': ''}, {'k': 'str', 'v': 'data_lost, cal_rfi,cam'}]
         for sel in sels:
             rep = common.run_model('C16', [f'mask {order} {names} {enc_sel(sel)}'])[0]
             m, mspec = (int(x) for x in rep.split(' '))
